@@ -17,6 +17,7 @@ MCNext ==
        \/ \E k \in cut..n : \E rw \in RWChoices(k) : Rewind(k, rw) /\ Step("Rewind", <<SizeOf(k), SortedSeq(rw)>>)
        \/ Reopen /\ Step("Reopen", <<>>)
        \/ \E p0 \in 0..U : AppendPrunedSubtree(p0) /\ Step("Subtree", <<p0>>)
+       \/ \E p0 \in 0..U : SubtreeThenDiscard(p0) /\ Step("SubtreeDiscard", <<p0>>)
 MCSpec == MCInit /\ [][MCNext]_<<vars, hist>>
 View == <<vars, Len(hist)>>
 ViewNoLen == vars
